@@ -129,6 +129,15 @@ func c05Program(r *gen.R, tiny bool, variant int) *conc.Program {
 		}
 		p.Readers = append(p.Readers, rs)
 	}
+	if !tiny && r.P(8) {
+		// a few values of 64 KiB and more (size-dependent paths: value records longer than any buffer)
+		for i, n := 0, r.Range(1, 3); i < n; i++ {
+			if st := &p.Mutator[r.Intn(len(p.Mutator))]; st.K == conc.MSet {
+				st.Big = r.Range(65536, 70000)
+				p.BigVals++
+			}
+		}
+	}
 	return p
 }
 
